@@ -180,6 +180,13 @@ def gen_groups(rng, count, tag, kinds=("fgroup", "fgroup_keyed", "sgroup", "sgro
         ops = []
         nm = 0
         extborn = set()
+        if cap == 0 and rng.random() < 0.12:
+            # FromIterator: the group is collected from an iterator of members (keys unknown, like extend)
+            k = rng.randint(1, 3)
+            mk = (lambda j: fscript(rng, k, j, False, panic)) if comb.startswith("f") else (lambda j: sscript(rng, k, j, panic))
+            ops.append("iter(" + ";".join(mk(j) for j in range(k)) + ")")
+            extborn.update(range(k))
+            nm = k
         for _ in range(rng.randint(2, maxops)):
             r = rng.random()
             if r < 0.28:
